@@ -187,10 +187,17 @@ fn c08_m4_inverse(s: Matrix4<R>, p: Point3<R>, v: Vector3<R>) {
     }
 }
 // general (projective) matrices: inverse_transform is the matrix inverse, None exactly on det = 0
-fn c08_m4_inverse_general(s: Matrix4<R>) {
+fn c08_m4_inverse_general(s: Matrix4<R>, v: Vector3<R>) {
     match Transform::<Point3<R>>::inverse_transform(&s) {
         None => { vcover("none"); vassert_eq("None => det = 0", det4(a4(s)), R(0.0)); }
-        Some(i) => { vcover("some"); vassert("Some => det != 0", det4(a4(s)) != R(0.0)); vassert_eq("N*M = I", a4(i * s), ident_n::<4>()); vassert_eq("M*N = I", a4(s * i), ident_n::<4>()); }
+        Some(i) => {
+            vcover("some"); vassert("Some => det != 0", det4(a4(s)) != R(0.0)); vassert_eq("N*M = I", a4(i * s), ident_n::<4>()); vassert_eq("M*N = I", a4(s * i), ident_n::<4>());
+            // inverse_transform_vector agrees with the inverse transform for every invertible matrix, projective ones included
+            match Transform::<Point3<R>>::inverse_transform_vector(&s, v) {
+                None => { vmust_not_reach("inverse_transform_vector exists"); }
+                Some(w) => { vassert_eq("inverse_transform_vector agrees", w, Transform::<Point3<R>>::transform_vector(&i, v)); }
+            }
+        }
     }
 }
 fn c08_m3_3d(s: Matrix3<R>, t: Matrix3<R>, p: Point3<R>, v: Vector3<R>) {
